@@ -23,18 +23,28 @@ RULE = ("problems (A,b,C,S) from tools/lib/gen_ls.py (small-integer dense with p
         "are compared; exact rational oracle on the implementation's answers (v = Ax-b, A'Pv = 0 with P = m0^2 Sigma^-1 "
         "of the active principal sub-matrices, v'Pv, minimum norm over min_x); non-trivial = correlated cluster or "
         "defect>0; distinct by gkf text + algorithm")
-LEVEL_TEXT = ("Lean 4 theorems about executable models of the four solvers and of class Adj: the returned x, v satisfy "
+LEVEL_TEXT = ("Lean 4 theorems about executable models of the four solvers and of BOTH entry points, class Adj (gama-g3) "
+              "and class LocalNetwork (gama-local: prepareProjectEquations = activeCov/m0^2, CovMat::cholDec + "
+              "Adj::choldec, forward substitution per cluster; the sparse hand-over to AdjInputData; vyrovnani_'s "
+              "back-transformed residuals r = L v and suma_pvv): the returned x, v satisfy "
               "v = Ax-b and the normal equations A'Pv = 0 (hence minimal v'Pv), x has minimal S-norm among minimisers, "
-              "reported sum of squares = v'Pv — in exact arithmetic over an ordered field, for all sizes/bands/defects, "
+              "reported sum of squares = v'Pv — for the ORIGINAL system (LocalNetwork: P = m0^2 Sigma^-1, Sigma the "
+              "covariance of the active observations as given in the input) — in exact arithmetic over an ordered field, "
+              "for all sizes/bands/defects, "
               "under the property's own hypothesis that every tested pivot is exactly 0 or at least the tolerance. "
               "Models tied to the C++ by differential correspondence (Float with tolerance) plus an exact rational "
               "oracle on the implementation's answers.")
 LEVEL_NOTE = ("Theorems are about exact arithmetic; IEEE rounding, libm and the convergence of the Golub-Reinsch SVD "
-              "iteration are not proved (SVD factorisation enters as a per-run certificate). LocalNetwork entry point is "
-              "covered by the network-level oracles of C02/C08/C09, not by this harness.")
+              "iteration are not proved (SVD factorisation enters as a per-run certificate). The LocalNetwork entry point is "
+              "covered from the assembled system on (Props/C01/NetFacade.lean, stream netfacade on real LocalNetwork "
+              "objects): the assembly itself (linearisation, revision, min_x list) is C05/C14/C08's, and its outputs "
+              "(distinct in-range columns per row, clusters partitioning the rows) enter the C01_net theorems as "
+              "hypotheses; the repeat loop of vyrovnani_ that removes points with huge covariances is C20's.")
 TECHNIQUE = "Lean 4 proof (ordered-field algebra, induction over the factorisation loops) + model/implementation correspondence"
 MODELLED = ["IEEE rounding (proofs over exact ordered fields)", "SVD::svd iteration (certificate per run)",
-            "memory management of the solver objects"]
+            "memory management of the solver objects",
+            "LocalNetwork: the cluster loop of prepareProjectEquations (ind_0 += N) is written with block index/offset "
+            "lookup (AdjM.locate); caching flags tst_rov_opr_/tst_vyrovnani_ (C04)"]
 ASSUMPTIONS = ["rank numerically unambiguous: generator keeps exact small-integer/dyadic data so every pivot is 0 or O(1)"]
 
 ALGS = ["env", "chol", "gso", "svd"]
